@@ -32,7 +32,7 @@ TruncClasses == {"none", "zero", "pageminus1", "onepage"}
 LimitClasses == {"ok", "zero", "hdr", "table", "low", "unaligned", "beyondfile", "near32"}
 HeadEClasses == {"ok", "zero", "hdr", "table", "unaligned", "gelimit", "gefile"}
 HeadNClasses == {"zero", "valid", "hdr", "table", "unaligned", "gelimit", "gefile"}
-NlenClasses  == {"ok", "zero", "pastpage", "pastfile"}
+NlenClasses  == {"ok", "zero", "pastpage", "pastend", "pastfile"}   \* pastend: the name ends 8 bytes beyond the file
 NextCClasses == {"ok", "zero", "self", "other", "range", "ffff"}
 NextEClasses == {"ok", "other", "self", "cycle2", "range", "ffff"}
 Ops          == {"addE", "addN", "addM"}
